@@ -174,15 +174,28 @@ def _wrap_reverse_tl(orig):
 
 # ----------------------------------------------------------------------------- M-ALIAS
 
+def same_typed(a, b):
+    """Equal AND of the same kinds throughout (a Fraction replaced by an equal float is a change); sets compare as sets."""
+    if type(a) is not type(b):
+        return False
+    if isinstance(a, (list, tuple)):
+        return len(a) == len(b) and all(same_typed(x, y) for x, y in zip(a, b))
+    if isinstance(a, dict):
+        return list(a.keys()) == list(b.keys()) and all(same_typed(a[k], b[k]) for k in a)
+    if isinstance(a, float) and a != a:
+        return b != b
+    return a == b
+
+
 def _snap(sg):
     return copy.deepcopy((sg.rewards, sg.players, sg.transition_list, sg.final_states))
 
 
 def _wrap_solve(orig):
     @functools.wraps(orig)
-    def solve_monitored(self):
+    def solve_monitored(self, *args, **kwargs):
         if not MON.flags["alias"]:
-            return orig(self)
+            return orig(self, *args, **kwargs)
         was = MON.metering
         MON.metering = False
         try:
@@ -193,7 +206,7 @@ def _wrap_solve(orig):
         MON.count("alias.solves")
         raised = None
         try:
-            return orig(self)
+            return orig(self, *args, **kwargs)
         except BaseException as e:
             raised = e
             raise
@@ -203,9 +216,9 @@ def _wrap_solve(orig):
                 MON.metering = False
                 try:
                     after = (self.rewards, self.players, self.transition_list, self.final_states)
-                    if after != before or repr(after) != repr(before):       # equal values of another kind (Fraction -> float) count as changed
+                    if not same_typed(after, before):       # equal values of another kind (Fraction -> float) count as changed
                         names = ["rewards", "players", "transition_list", "final_states"]
-                        diff = [nm for nm, a, b in zip(names, after, before) if a != b or repr(a) != repr(b)]
+                        diff = [nm for nm, a, b in zip(names, after, before) if not same_typed(a, b)]
                         MON.event("alias", {"changed": diff, "prune": bool(self.prune_states),
                                             "raised": type(raised).__name__ if raised else None,
                                             "before": _small(before[2]), "after": _small(copy.deepcopy(after[2]))})
@@ -218,21 +231,21 @@ def _wrap_solve(orig):
 
 def _wrap_solve_reachability(orig):
     @functools.wraps(orig)
-    def solve_reachability_monitored(self, transition_list, final_states, prune_states):
+    def solve_reachability_monitored(self, *args, **kwargs):
         if MON.flags["prune"]:
             MON.prune_ctx = {"solver": self, "orig": [list(st.next_states) for st in self.state_list],
                              "strategies": None}
-        return orig(self, transition_list, final_states, prune_states)
+        return orig(self, *args, **kwargs)
     return solve_reachability_monitored
 
 
 def _wrap_prune_reachability(orig):
     @functools.wraps(orig)
-    def prune_reachability_monitored(self, reachability_strategies):
+    def prune_reachability_monitored(self, reachability_strategies, *args, **kwargs):
         ctx = MON.prune_ctx
         if MON.flags["prune"] and ctx is not None and ctx["solver"] is self:
             ctx["strategies"] = copy.deepcopy(reachability_strategies)
-        return orig(self, reachability_strategies)
+        return orig(self, reachability_strategies, *args, **kwargs)
     return prune_reachability_monitored
 
 
@@ -309,12 +322,12 @@ def check_pruned_lists(players, orig, strategies, reach, after):
 
 def _wrap_prune_game(orig):
     @functools.wraps(orig)
-    def prune_stochastich_game_monitored(self):
+    def prune_stochastich_game_monitored(self, *args, **kwargs):        # signature-agnostic: a refactoring may add parameters
         ctx = MON.prune_ctx
         active = MON.flags["prune"] and ctx is not None and ctx["solver"] is self
         raised = None
         try:
-            return orig(self)
+            return orig(self, *args, **kwargs)
         except StepBudgetExceeded:
             raise
         except BaseException as e:
@@ -459,10 +472,10 @@ def _diagnose_total(solver, sweeps=40):
 
 def _wrap_vi_total(orig):
     @functools.wraps(orig)
-    def value_iteration_total_rewards_monitored(self):
+    def value_iteration_total_rewards_monitored(self, *args, **kwargs):
         MON.count("step.vi_total_calls")
         try:
-            return orig(self)
+            return orig(self, *args, **kwargs)
         except StepBudgetExceeded as e:
             MON.metering = False
             try:
@@ -475,10 +488,10 @@ def _wrap_vi_total(orig):
 
 def _wrap_vi_reach(orig):
     @functools.wraps(orig)
-    def value_iteration_reachability_monitored(self, states_reaching_final, prune_states):
+    def value_iteration_reachability_monitored(self, states_reaching_final, *args, **kwargs):
         MON.count("step.vi_reach_calls")
         try:
-            return orig(self, states_reaching_final, prune_states)
+            return orig(self, states_reaching_final, *args, **kwargs)
         except StepBudgetExceeded as e:
             MON.metering = False
             try:
@@ -543,9 +556,9 @@ class fs_record:
 
 def _wrap_run_games(orig):
     @functools.wraps(orig)
-    def run_games_monitored(games_dict):
+    def run_games_monitored(games_dict, *args, **kwargs):
         MON.count("run.calls")
-        res = orig(games_dict)
+        res = orig(games_dict, *args, **kwargs)
         MON.runs.append(res)
         if len(MON.runs) > 4:
             MON.runs.pop(0)
